@@ -118,16 +118,24 @@ type written struct {
 // replayOne executes one generated history on a fresh directory through the gpfile API and compares
 // what a reader gets after every session with what was written.
 func replayOne(root string, seed uint64, n int, encName string, level int, sess []genSession) (fail string, step int, skipped bool) {
-	et, err := encoders.GetTypeByString(encName)
-	if err != nil {
-		hx.Die("%v", err)
+	// encName may be a comma separated list: the sessions of a history then rotate through the encoders
+	// (a day written by processes configured with different compressors)
+	var ets []encoders.Type
+	for _, name := range strings.Split(encName, ",") {
+		t, err := encoders.GetTypeByString(name)
+		if err != nil {
+			hx.Die("%v", err)
+		}
+		ets = append(ets, t)
 	}
+	et := ets[0]
 	dir := filepath.Join(root, fmt.Sprintf("b%06d", n))
 	defer os.RemoveAll(dir)
 	rng := hx.NewRNG(seed*1000003 + uint64(n))
 	all := map[int]*written{}
 	var tot gpfile.Stats
 	for si, s := range sess {
+		et = ets[(si+n)%len(ets)]
 		w := gpfile.NewDirWriter(dir, Day0, gpfile.WithEncoderTypeLevel(et, level))
 		if err := w.Open(); err != nil {
 			return "open for write: " + err.Error(), si, false
